@@ -262,7 +262,24 @@ def r_mul(a, b):
     if not sb and b == 0:
         return 0 if sort_of(a) in "ib" and isinstance(b, int) else Fraction(0)
     x, y = _coerce2(a, b)
+    if sa and sb and _CUR[0] is not None and _CUR[0].defer_nonlinear:
+        return _deferred("mul", x, y, lambda v: v == x * y, sort=x.sort())
     return wrap(x * y)
+
+
+def _deferred(tag, x, y, definition, sort=None):
+    """abstract a nonlinear term by a fresh constant; its definition is only handed to the solver for
+    obligation queries (feasibility checks see an over-approximation)."""
+    ex = _CUR[0]
+    key = ("deferred", tag, x.get_id(), y.get_id() if y is not None else None)
+    if tag == "mul" and ("deferred", tag, y.get_id(), x.get_id()) in ex.memo:
+        key = ("deferred", tag, y.get_id(), x.get_id())
+    if key in ex.memo:
+        return ex.memo[key]
+    v = ex.fresh_int(tag) if sort is not None and sort == z3.IntSort() else ex.fresh_real(tag)
+    ex.defs.append(definition(v))
+    ex.memo[key] = v
+    return v
 
 
 def r_div(a, b):
@@ -305,6 +322,8 @@ def r_div(a, b):
     x, y = _coerce2(a, b)
     if x.sort() == z3.IntSort():
         x, y = z3.ToReal(x), z3.ToReal(y)
+    if sb and _CUR[0] is not None and _CUR[0].defer_nonlinear:
+        return _deferred("div", x, y, lambda v: v * y == x)
     return wrap(x / y)
 
 
@@ -347,7 +366,13 @@ def r_sqrt(a):
         return ex.memo[key]
     y = ex.fresh_real("sqrt")
     az = to_z3(a, like=z3.RealSort())
-    ex.assume(z3.And(y >= 0, y * y == az), axiom=True)
+    if ex.defer_nonlinear:
+        ex.assume(y >= 0, axiom=True)
+        ex.assume(z3.Implies(az == 0, y == 0), axiom=True)
+        ex.assume(z3.Implies(az > 0, y > 0), axiom=True)
+        ex.defs.append(y * y == az)
+    else:
+        ex.assume(z3.And(y >= 0, y * y == az), axiom=True)
     if not is_sym(a):  # keep nonlinear reasoning cheap: give a tight numeric enclosure as well
         f = _math.sqrt(float(a))
         lo, hi = Fraction(f) * (1 - Fraction(1, 10**12)), Fraction(f) * (1 + Fraction(1, 10**12))
@@ -881,6 +906,9 @@ class Explorer:
             self.solver.add(a)
         self.max_paths = max_paths
         self.max_decisions = max_decisions
+        self.defer_nonlinear = False
+        self.nl_fallback = False
+        self.stop = False
         self.stats = {"checks": 0, "solver_s": 0.0, "paths": 0, "infeasible_runs": 0, "decisions": 0,
                       "unknown": 0, "forced": 0}
         self._reset_run([])
@@ -903,6 +931,8 @@ class Explorer:
         self.inputs = {}     # name -> z3 const (declared by harness)
         self.axiom_terms = {}
         self.inputs_rng = []
+        self.defs = []       # deferred nonlinear definitions (added to obligation queries only)
+        self._pc_ids = set()
 
     def _pop_all(self):
         while self.levels:
@@ -914,26 +944,56 @@ class Explorer:
         t0 = time.time()
         self.stats["checks"] += 1
         r = self.solver.check(*extra)
-        self.stats["solver_s"] += time.time() - t0
+        dt = time.time() - t0
+        self.stats["solver_s"] += dt
+        if dt > 1.0 and _SLOW:
+            import traceback as _tb
+            fr = [f"{f.name}:{f.lineno}" for f in _tb.extract_stack(limit=12)[:-1] if "symx" not in f.filename or "harness" in f.filename]
+            print(f"[slow check {dt:.1f}s -> {r}] n_assert={len(self.solver.assertions())} at {fr[-4:]}", flush=True)
         s = str(r)
         if s == "unknown":
             self.stats["unknown"] += 1
         return s
 
+    def _check_fb(self):
+        """check with an nlsat fall-back for nonlinear path conditions -> (result, model|None)"""
+        r = self.check()
+        if r == "sat":
+            return r, self.solver.model()
+        if r == "unknown" and self.nl_fallback:
+            try:
+                s2 = z3.Tactic("qfnra-nlsat").solver()
+                s2.set("timeout", self.check_timeout_ms)
+                s2.add(self.solver.assertions())
+                t0 = time.time()
+                r2 = str(s2.check())
+                self.stats["solver_s"] += time.time() - t0
+                self.stats["nl_fallback"] = self.stats.get("nl_fallback", 0) + 1
+                if r2 == "sat":
+                    return "sat", s2.model()
+                if r2 == "unsat":
+                    return "unsat", None
+            except z3.Z3Exception:
+                pass
+        return r, None
+
     def _ensure_model(self):
         if self.model is None:
-            r = self.check()
+            r, m = self._check_fb()
             if r == "sat":
-                self.model = self.solver.model()
+                self.model = m
             elif r == "unsat":
                 raise Infeasible()
         return self.model
 
     def _side(self, c):
+        # syntactic shortcut: the condition (or its negation) is already a conjunct of the path condition
+        cid = c.get_id()
+        if cid in self._pc_ids:
+            return "sat" if self.model is not None else "unknown", self.model
         self.solver.push()
         self.solver.add(c)
-        r = self.check()
-        m = self.solver.model() if r == "sat" else None
+        r, m = self._check_fb()
         self.solver.pop()
         return r, m
 
@@ -949,6 +1009,7 @@ class Explorer:
             return
         self.solver.add(c)
         self.pc.append(c)
+        self._pc_ids.add(c.get_id())
         if self.model is not None:
             try:
                 if not z3.is_true(self.model.eval(c, model_completion=True)):
@@ -959,6 +1020,8 @@ class Explorer:
     def decide(self, cond):
         if isinstance(cond, bool):
             return cond
+        if self.stop:
+            raise Infeasible()
         cond = z3.simplify(cond)
         if z3.is_true(cond):
             return True
@@ -999,7 +1062,11 @@ class Explorer:
                     raise Infeasible()
             else:
                 other = z3.Not(cond) if known else cond
-                ro, mo = self._side(other)
+                same = cond if known else z3.Not(cond)
+                if z3.simplify(same).get_id() in self._pc_ids or same.get_id() in self._pc_ids:
+                    ro, mo = "unsat", None
+                else:
+                    ro, mo = self._side(other)
                 if ro == "unsat":
                     v, forced = known, True
                 else:
@@ -1018,6 +1085,7 @@ class Explorer:
         self.trace.append(v)
         self.forced.append(forced)
         self.pc.append(c)
+        self._pc_ids.add(c.get_id())
         if i < len(self.prefix):
             self.model = None
         return v
@@ -1045,7 +1113,8 @@ class Explorer:
         """yields PathResult dicts."""
         stack = [[]]
         results = []
-        while stack:
+        self.stop = False
+        while stack and not self.stop:
             if self.stats["paths"] + self.stats["infeasible_runs"] >= self.max_paths:
                 raise Budget(f"more than {self.max_paths} paths")
             prefix = stack.pop()
@@ -1085,6 +1154,8 @@ class Explorer:
 
 
 _CUR = [None]
+import os as _os
+_SLOW = bool(_os.environ.get("VERIF_SLOW"))
 
 
 def _set_cur(ex):
